@@ -439,3 +439,133 @@ func OpenFDs(socketsOnly bool) int {
 	}
 	return n
 }
+
+// ---- TCP targets ----
+
+// TCPSession is one connection accepted by a TCPTarget.
+type TCPSession struct {
+	mu       sync.Mutex
+	Received []byte
+	EOF      bool   // the peer's write side was closed (clean EOF)
+	Err      string // read error other than EOF
+	Done     bool   // handler finished
+	conn     *net.TCPConn
+}
+
+// Snapshot returns a copy of the observable state.
+func (s *TCPSession) Snapshot() (recv []byte, eof bool, errs string, done bool) {
+	s.mu.Lock()
+	defer s.mu.Unlock()
+	return append([]byte{}, s.Received...), s.EOF, s.Err, s.Done
+}
+
+// TCPTarget is a scripted TCP listener.
+//
+// Modes: "echo" (echo as it arrives, half-close after the peer's EOF), "banner-on-eof" (read to EOF, then send
+// Banner and close), "speak-first" (send Banner at once, then echo), "close-first" (send Banner, half-close at
+// once, keep reading to EOF), "sink" (read to EOF, send nothing).
+type TCPTarget struct {
+	Tag    string
+	Mode   string
+	Banner []byte
+	// Release, for mode "banner-then-rst": the target sends Banner after the peer's EOF, waits for Release to be
+	// closed and then aborts the connection with RST.
+	Release chan struct{}
+	Ln     *net.TCPListener
+	Addr   netip.AddrPort
+	mu     sync.Mutex
+	sess   []*TCPSession
+}
+
+// NewTCPTarget listens on ip:port.
+func NewTCPTarget(tag, ip string, port int, mode string, banner []byte) (*TCPTarget, error) {
+	ln, err := net.ListenTCP("tcp", &net.TCPAddr{IP: net.ParseIP(ip), Port: port})
+	if err != nil {
+		return nil, err
+	}
+	t := &TCPTarget{Tag: tag, Mode: mode, Banner: banner, Ln: ln, Addr: ln.Addr().(*net.TCPAddr).AddrPort()}
+	go func() {
+		for {
+			c, err := ln.AcceptTCP()
+			if err != nil {
+				return
+			}
+			s := &TCPSession{conn: c}
+			t.mu.Lock()
+			t.sess = append(t.sess, s)
+			t.mu.Unlock()
+			go t.handle(s)
+		}
+	}()
+	return t, nil
+}
+
+func (t *TCPTarget) handle(s *TCPSession) {
+	c := s.conn
+	defer func() {
+		c.Close()
+		s.mu.Lock()
+		s.Done = true
+		s.mu.Unlock()
+	}()
+	switch t.Mode {
+	case "speak-first":
+		c.Write(t.Banner)
+	case "close-first":
+		c.Write(t.Banner)
+		c.CloseWrite()
+	}
+	b := make([]byte, 65536)
+	for {
+		n, err := c.Read(b)
+		if n > 0 {
+			s.mu.Lock()
+			s.Received = append(s.Received, b[:n]...)
+			s.mu.Unlock()
+			if t.Mode == "echo" || t.Mode == "speak-first" {
+				if _, werr := c.Write(b[:n]); werr != nil {
+					return
+				}
+			}
+		}
+		if err != nil {
+			s.mu.Lock()
+			if err.Error() == "EOF" {
+				s.EOF = true
+			} else {
+				s.Err = err.Error()
+			}
+			s.mu.Unlock()
+			break
+		}
+	}
+	if t.Mode == "banner-on-eof" {
+		c.Write(t.Banner)
+	}
+	if t.Mode == "banner-then-rst" {
+		c.Write(t.Banner)
+		if t.Release != nil {
+			<-t.Release
+		}
+		c.SetLinger(0)
+		return // deferred Close sends RST
+	}
+	if t.Mode != "close-first" {
+		c.CloseWrite()
+	}
+}
+
+// Sessions returns the accepted connections so far.
+func (t *TCPTarget) Sessions() []*TCPSession {
+	t.mu.Lock()
+	defer t.mu.Unlock()
+	return append([]*TCPSession{}, t.sess...)
+}
+
+// Close stops the listener and closes every accepted connection.
+func (t *TCPTarget) Close() {
+	t.Ln.Close()
+	for _, s := range t.Sessions() {
+		s.conn.Close()
+	}
+}
